@@ -488,7 +488,7 @@ func TestC10(t *testing.T) {
 		cfg := walkCfg{node: genNodeCfg(ch), steps: rapid.IntRange(8, 30).Draw(rt, "steps"),
 			weights: []int{0, 0, 0, 0, 1, 1, 1, 2, 4, 4, 4, 5, 7}}
 		if err := c10Case(ch, cfg, rec); err != nil {
-			rt.Fatalf("%v", err)
+			fatal(rt, "%v", err)
 		}
 	})
 }
